@@ -230,6 +230,9 @@ class Controller:
     le_connections: dict[hci.Address, Connection]  # LE Connections
     classic_connections: dict[hci.Address, Connection]  # Connections in BR/EDR
     classic_pending_commands: dict[hci.Address, dict[lmp.Opcode, asyncio.Future[int]]]
+    # Remote feature reads the peer has not answered yet: None (supported features) or
+    # the page number (extended features), by peer address
+    classic_pending_remote_features_reads: dict[hci.Address, list[int | None]]
     sco_links: dict[hci.Address, ScoLink]  # SCO links by address
     central_cis_links: dict[int, CisLink]  # CIS links by handle
     peripheral_cis_links: dict[int, CisLink]  # CIS links by handle
@@ -393,6 +396,7 @@ class Controller:
         self.classic_connections = {}
         self.sco_links = {}
         self.classic_pending_commands = {}
+        self.classic_pending_remote_features_reads = {}
         self.central_cis_links = {}
         self.peripheral_cis_links = {}
         self.advertising_sets = {}
@@ -1132,6 +1136,7 @@ class Controller:
                 )
             case lmp.LmpFeaturesRes(features):
                 if connection := self.classic_connections.get(sender_address):
+                    self._on_classic_remote_features_read_answered(sender_address, None)
                     self.send_hci_packet(
                         hci.HCI_Read_Remote_Supported_Features_Complete_Event(
                             status=hci.HCI_ErrorCode.SUCCESS,
@@ -1161,6 +1166,9 @@ class Controller:
                 )
             case lmp.LmpFeaturesResExt(features_page, max_features_page, features):
                 if connection := self.classic_connections.get(sender_address):
+                    self._on_classic_remote_features_read_answered(
+                        sender_address, features_page
+                    )
                     self.send_hci_packet(
                         hci.HCI_Read_Remote_Extended_Features_Complete_Event(
                             status=hci.HCI_ErrorCode.SUCCESS,
@@ -1248,6 +1256,13 @@ class Controller:
                 )
             )
 
+    def _on_classic_remote_features_read_answered(
+        self, peer_address: hci.Address, page_number: int | None
+    ) -> None:
+        pending = self.classic_pending_remote_features_reads.get(peer_address, [])
+        if page_number in pending:
+            pending.remove(page_number)
+
     def on_classic_disconnected(self, peer_address: hci.Address, reason: int) -> None:
         # The SCO link to this peer goes away with the ACL connection: the host is
         # told about it before it is told about the connection itself.
@@ -1260,6 +1275,29 @@ class Controller:
 
         # Send a disconnection complete event
         if connection := self.classic_connections.pop(peer_address, None):
+            # Requested with Read Remote (Supported|Extended) Features, the peer will
+            # never answer
+            for page_number in self.classic_pending_remote_features_reads.pop(
+                peer_address, []
+            ):
+                if page_number is None:
+                    self.send_hci_packet(
+                        hci.HCI_Read_Remote_Supported_Features_Complete_Event(
+                            status=reason,
+                            connection_handle=connection.handle,
+                            lmp_features=bytes(8),
+                        )
+                    )
+                else:
+                    self.send_hci_packet(
+                        hci.HCI_Read_Remote_Extended_Features_Complete_Event(
+                            status=reason,
+                            connection_handle=connection.handle,
+                            page_number=page_number,
+                            maximum_page_number=0,
+                            extended_lmp_features=bytes(8),
+                        )
+                    )
             self.send_hci_packet(
                 hci.HCI_Disconnection_Complete_Event(
                     status=hci.HCI_ErrorCode.SUCCESS,
@@ -1616,6 +1654,9 @@ class Controller:
             return None
 
         self._send_hci_command_status(hci.HCI_COMMAND_STATUS_PENDING, command.op_code)
+        self.classic_pending_remote_features_reads.setdefault(
+            connection.peer_address, []
+        ).append(None)
         self.send_lmp_packet(
             connection.peer_address,
             lmp.LmpFeaturesReq(self.lmp_features_bytes[:8]),
@@ -1637,6 +1678,9 @@ class Controller:
             return None
 
         self._send_hci_command_status(hci.HCI_COMMAND_STATUS_PENDING, command.op_code)
+        self.classic_pending_remote_features_reads.setdefault(
+            connection.peer_address, []
+        ).append(command.page_number)
         self.send_lmp_packet(
             connection.peer_address,
             lmp.LmpFeaturesReqExt(
